@@ -8,9 +8,49 @@ type BitWriter struct {
 	acc  uint64
 	nacc int // bits in acc (<8 after each write)
 	bits int // total number of bits written
+	h    *Hostile
+	nue  int // Exp-Golomb codewords written so far (ue(v) and se(v) alike)
 }
 
 func NewBitWriter() *BitWriter { return &BitWriter{} }
+
+// Hostile is an optional hook of the bit writer that turns a bit-exact serialisation of a VALID value tree
+// into a hostile one without touching the tree: one Exp-Golomb codeword is replaced, the stream is cut, a
+// bit is inverted. The zero value (and a nil pointer) changes nothing: the output is bit-identical to a
+// serialisation without hook. The serialisers keep following the TREE (loop counts, conditions), only the
+// written bits differ; what a parser makes of the rest of the stream is the point of the exercise.
+//
+// Order of application: the codeword replacement happens while writing; truncation and the bit flip are
+// applied by Out() to the bits written (for the AVC serialisers that is the RBSP without the NAL header
+// byte, for the HEVC serialisers the two NAL header bytes are bits 0..15), before emulation prevention.
+type Hostile struct {
+	// ReplaceUE: the UEIndex-th Exp-Golomb codeword written (ue(v) or se(v), counted from 0 in writing order)
+	// is replaced by the ue(v) codeword of UEValue (0 .. 2^32-2 are the legal code numbers; larger values are
+	// written as well: 2^32-1 needs a 32-bit prefix, 2^63 a 63-bit one).
+	ReplaceUE bool   `json:"replace_ue,omitempty"`
+	UEIndex   int    `json:"ue_index,omitempty"`
+	UEValue   uint64 `json:"ue_value,omitempty"`
+	// UEPrefixZeros > 0 (with ReplaceUE) writes an over-long codeword instead: that many leading zero bits
+	// (33, 64, 100 ...), the marker bit 1, and then as many suffix bits taken from the low bits of UEValue
+	// (zero bits beyond 64).
+	UEPrefixZeros int `json:"ue_prefix_zeros,omitempty"`
+	// TruncateBits > 0: only the first TruncateBits bits are kept (the last byte is padded with zeros).
+	TruncateBits int `json:"truncate_bits,omitempty"`
+	// Flip: bit number FlipBit (0 = first bit written) is inverted, if it exists after truncation.
+	Flip    bool `json:"flip,omitempty"`
+	FlipBit int  `json:"flip_bit,omitempty"`
+
+	// Results, set by Out(): the number of Exp-Golomb codewords and of bits the serialiser wrote (before
+	// truncation). Serialise once with &Hostile{} to learn them.
+	SeenUE   int `json:"-"`
+	SeenBits int `json:"-"`
+}
+
+// NewHostileBitWriter returns a writer with the hook attached (h may be nil).
+func NewHostileBitWriter(h *Hostile) *BitWriter { return &BitWriter{h: h} }
+
+// NumUE is the number of Exp-Golomb codewords written so far.
+func (w *BitWriter) NumUE() int { return w.nue }
 
 // U writes the n (0..64) low bits of v, most significant first.
 func (w *BitWriter) U(v uint64, n int) {
@@ -35,6 +75,31 @@ func (w *BitWriter) Flag(b bool) {
 
 // UE writes v as ue(v) (Exp-Golomb, H.264 9.1).
 func (w *BitWriter) UE(v uint64) {
+	k := w.nue
+	w.nue++
+	if h := w.h; h != nil && h.ReplaceUE && h.UEIndex == k {
+		if h.UEPrefixZeros > 0 {
+			for i := 0; i < h.UEPrefixZeros; i++ {
+				w.U(0, 1)
+			}
+			w.U(1, 1)
+			for i := h.UEPrefixZeros - 1; i >= 0; i-- {
+				if i < 64 {
+					w.U(h.UEValue>>uint(i), 1)
+				} else {
+					w.U(0, 1)
+				}
+			}
+			return
+		}
+		v = h.UEValue
+		if v == ^uint64(0) { // v+1 would wrap: 64 zeros, marker, 64 zero suffix bits
+			w.U(0, 64)
+			w.U(1, 1)
+			w.U(0, 64)
+			return
+		}
+	}
 	x := v + 1
 	n := 0
 	for t := x; t > 1; t >>= 1 {
@@ -85,6 +150,22 @@ func (w *BitWriter) Out() []byte {
 	out := append([]byte{}, w.buf...)
 	if w.nacc > 0 {
 		out = append(out, byte(w.acc<<uint(8-w.nacc)))
+	}
+	h := w.h
+	if h == nil {
+		return out
+	}
+	h.SeenUE, h.SeenBits = w.nue, w.bits
+	nbits := w.bits
+	if h.TruncateBits > 0 && h.TruncateBits < nbits {
+		nbits = h.TruncateBits
+		out = out[:(nbits+7)/8]
+		if r := nbits % 8; r != 0 {
+			out[len(out)-1] &= byte(0xff) << uint(8-r)
+		}
+	}
+	if h.Flip && h.FlipBit >= 0 && h.FlipBit < nbits {
+		out[h.FlipBit/8] ^= 1 << uint(7-h.FlipBit%8)
 	}
 	return out
 }
